@@ -14,7 +14,7 @@ def graph_features(g):
     for e in g['edges']:
         if e['phony']:
             f.add('phony' if (e['exp'] or e['imp'] or e['oo']) else 'phony_noinputs')
-        if e['restat']:
+        if e['restat'] or e.get('dd_restat'):
             f.add('restat')
         if e['generator']:
             f.add('generator')
@@ -146,4 +146,5 @@ def replay_file(path, prop, props):
     return 0
 
 
-RUNNERS = {}
+RUNNERS = {'metamorphic': lambda sim, ops: simrun.run_metamorphic(sim, ops),
+           'dyndep_inline': lambda sim, ops: simrun.run_metamorphic(sim, ops, simrun.to_inlined, 'C11', 'inlined-manifest')}
